@@ -183,7 +183,7 @@ def check_faulted(run, cfg, k, kind, persistent, res, tag):
                     float(s.obj), best, k, s.msg[:50]), obj=s.obj, best_before=best)
     if s.flag == s.EXIT_SUCCESS and not np.isfinite(s.obj):
         add("success-with-nonfinite-objective", "flag 0 ('%s') with obj=%r (%s)" % (s.msg, float(s.obj), "a finite point exists" if anyfinite else
-            "no finite point anywhere in the history"), known=(None if anyfinite else "success-flag-with-no-finite-point-in-history"))
+            "no finite point anywhere in the history"), known=oracles.d22_key(run, cfg, anyfinite))
     st["oracle_passes"] = st.get("oracle_passes", 0) + 1
     res["viol"].extend(viol)
 
